@@ -22,15 +22,20 @@ use crate::{bytes_of, lines::ref_flat, uarg, Rng};
 
 // ------------------------------------------------------------------------------------------
 // the length-prefixed test codec: header byte h (h == bad: decode error, consumes the byte),
-// payload of h*scale bytes; at end of stream a non-empty remainder is yielded as a "tail" frame
+// payload of h*scale bytes; at end of stream a non-empty remainder is yielded as a "tail" frame.
+// With `end_frame` ("lpe") the codec is stateful: once the buffer is empty decode_eof yields exactly
+// one "end" frame (an end-of-stream frame produced from codec state on an EMPTY buffer), then None.
 // ------------------------------------------------------------------------------------------
 pub struct LpCodec {
     pub scale: usize,
     pub bad: u8,
+    pub end_frame: bool,
+    pub ended: bool,
 }
 pub enum LpItem {
     Frame(Vec<u8>),
     Tail(Vec<u8>),
+    End,
 }
 impl Decoder for LpCodec {
     type Item = LpItem;
@@ -54,8 +59,12 @@ impl Decoder for LpCodec {
     fn decode_eof(&mut self, src: &mut BytesMut) -> Result<Option<LpItem>, io::Error> {
         match self.decode(src)? {
             Some(f) => Ok(Some(f)),
-            None if src.is_empty() => Ok(None),
-            None => Ok(Some(LpItem::Tail(src.split().to_vec()))),
+            None if !src.is_empty() => Ok(Some(LpItem::Tail(src.split().to_vec()))),
+            None if self.end_frame && !self.ended => {
+                self.ended = true;
+                Ok(Some(LpItem::End))
+            }
+            None => Ok(None),
         }
     }
 }
@@ -93,7 +102,7 @@ fn lp_dec_eof(b: &[u8], scale: usize, bad: u8) -> (Option<Item>, &[u8]) {
 }
 pub fn frames(codec: &str, input: &[u8], scale: usize, bad: u8) -> Vec<Item> {
     match codec {
-        "lp" => {
+        "lp" | "lpe" => {
             let mut out = vec![];
             let mut rest = input;
             for eof in [false, true] {
@@ -105,6 +114,9 @@ pub fn frames(codec: &str, input: &[u8], scale: usize, bad: u8) -> Vec<Item> {
                         Some(i) => out.push(i),
                     }
                 }
+            }
+            if codec == "lpe" {
+                out.push(("end", vec![])); // LpeDecEof: one End frame once the buffer is empty
             }
             out
         }
@@ -254,11 +266,12 @@ fn new_run(codec: &str, input: Vec<u8>, script: VecDeque<(String, usize)>, scale
     let io = ScriptRead { input, pos: 0, script, log: vec![], unscripted: 0, reads: 0, at_eof: false };
     let wakers = Wakers::new(1);
     match codec {
-        "lp" => Box::new(Run {
-            framed: Framed::new(io, LpCodec { scale, bad }),
+        "lp" | "lpe" => Box::new(Run {
+            framed: Framed::new(io, LpCodec { scale, bad, end_frame: codec == "lpe", ended: false }),
             conv: |i| match i {
                 LpItem::Frame(v) => ("ok", v),
                 LpItem::Tail(v) => ("tail", v),
+                LpItem::End => ("end", vec![]),
             },
             wakers,
         }),
@@ -364,6 +377,7 @@ fn kind(k: &str) -> &'static str {
     match k {
         "ok" => "ok",
         "tail" => "tail",
+        "end" => "end",
         "err" => "err",
         "none" => "none",
         "ioerr" => "ioerr",
@@ -379,11 +393,11 @@ fn main_long(mut trace: Trace) {
     let mut failures: Vec<Value> = vec![];
     let (mut steps, mut total_bytes, mut total_frames, mut max_read) = (0usize, 0usize, 0usize, 0usize);
     for run in 0..n {
-        let (codec, scale) = [("lp", 1usize), ("lines", 1), ("bytes", 1), ("lp", 40)][run % 4];
+        let (codec, scale) = [("lp", 1usize), ("lines", 1), ("bytes", 1), ("lp", 40), ("lpe", 1)][run % 5];
         let len = rng.range(20 * 1024, 64 * 1024);
         let mut input: Vec<u8> = Vec::with_capacity(len + 16);
         match codec {
-            "lp" => {
+            "lp" | "lpe" => {
                 while input.len() < len {
                     let h = match rng.below(20) {
                         0 => 255u8, // invalid header
